@@ -9,8 +9,10 @@
      the IAT lists, entries of a split IAT batch getting new trace numbers 1..n;
      then per non-empty output: header data copied, File.Create (numbers <= 1
      replaced by the running sequence, controls summed), File.Validate.
-   Fresh batches carry number 1 (NewBatchHeader) and the control tabulated by
-   their own Create; errors of that Create are ignored by the Go code. *)
+   Fresh standard / ADV batches carry the number of the batch they are split off
+   (createSegmentFileBatchHeader copies BatchNumber), fresh IAT batches number 1
+   (NewIATBatchHeader), and the control tabulated by their own Create; errors of
+   that Create are ignored by the Go code. *)
 From Coq Require Import ZArith NArith List Bool.
 Import ListNotations.
 From ACH Require Import TxCodes RevTable SegTable.
@@ -33,10 +35,10 @@ Definition empty_file : sfile := mksf 0 0 [] [] 0 0.
 Definition dir_of (cr : bool) : target := if cr then TCredit else TDebit.
 Definition kind_of (b : sbatch) : bkind := if sb_adv b then KAdv else KStd.
 
-Definition fresh (amt : list seg_arm) (adv : bool) (scc : Z) (ident : N) (es : list entry) : list sbatch :=
+Definition fresh (amt : list seg_arm) (adv : bool) (scc num : Z) (ident : N) (es : list entry) : list sbatch :=
   match es with
   | [] => []
-  | _ => [mksb adv scc 1 ident (sum_dir amt TCredit es) (sum_dir amt TDebit es) es]
+  | _ => [mksb adv scc num ident (sum_dir amt TCredit es) (sum_dir amt TDebit es) es]
   end.
 
 Fixpoint retrace (seq : N) (es : list entry) : list entry :=
@@ -49,12 +51,12 @@ Fixpoint retrace (seq : N) (es : list entry) : list entry :=
 Definition part (T : stables) (cr : bool) (b : sbatch) : list sbatch :=
   if sb_adv b then
     if sb_scc b =? 280
-    then fresh (st_amt_adv T) true 280 (sb_ident b) (filter (goes (st_seg_adv T) (dir_of cr)) (sb_entries b))
+    then fresh (st_amt_adv T) true 280 (sb_num b) (sb_ident b) (filter (goes (st_seg_adv T) (dir_of cr)) (sb_entries b))
     else []
   else
     match scc_lookup (st_scc_std T) (sb_scc b) with
     | Some (SSplit c d) =>
-        fresh (st_amt_std T) false (if cr then c else d) (sb_ident b)
+        fresh (st_amt_std T) false (if cr then c else d) (sb_num b) (sb_ident b)
               (filter (goes (st_seg_std T) (dir_of cr)) (sb_entries b))
     | Some SReuseCredit => if cr then [b] else []
     | Some SReuseDebit => if cr then [] else [b]
@@ -65,7 +67,7 @@ Definition part (T : stables) (cr : bool) (b : sbatch) : list sbatch :=
 Definition ipart (T : stables) (cr : bool) (b : sbatch) : list sbatch :=
   match scc_lookup (st_scc_iat T) (sb_scc b) with
   | Some (SSplit c d) =>
-      fresh (st_amt_iat T) false (if cr then c else d) (sb_ident b)
+      fresh (st_amt_iat T) false (if cr then c else d) 1 (sb_ident b)
             (retrace 1 (filter (goes (st_seg_iat T) (dir_of cr)) (sb_entries b)))
   | Some SReuseCredit => if cr then [b] else []
   | Some SReuseDebit => if cr then [] else [b]
